@@ -1,4 +1,4 @@
-import TapkeeVerif.Proofs.Params
+import TapkeeVerif.Proofs.ParamsBridge
 /-!
 # Property C14 — invalid requests raise the documented exception before any computation
 
@@ -31,7 +31,7 @@ theorem explicit_values_kept (r : Request) (h : (r.kws.map Param.kw).Nodup) (p :
   simp [PSet.get, lookup_merged, lastVal_of_mem_nodup r.kws h p hp]
 
 /-- the value held by every keyword of `tapkee_internal::defaults` equals the keyword's default value -/
-theorem defaults_hold_default : ∀ k ∈ defaultsList, lookup k defaults.pmap = some k.default := by decide
+theorem defaults_hold_default : ∀ k ∈ defaultsList, lookup k defaults.pmap = some k.default := defaults_lookup
 
 /-- unset keywords take their defaults -/
 theorem unset_take_defaults (r : Request) (k : Kw) (hk : k ∈ defaultsList) (h : ∀ p ∈ r.kws, p.kw ≠ k) :
@@ -52,6 +52,90 @@ theorem unset_take_documented_defaults (r : Request) (k : Kw) (v : Val) (hd : k.
   have hm : k ≠ .method := by intro hk; subst hk; simp [Kw.documented] at hd
   rw [documented_default_eq_actual.1 k v hd]
   exact unset_take_defaults r k (documented_default_eq_actual.2 k hm) h
+
+/-! ## the bound table (all methods, all N, all values) -/
+
+/-- a request that is wrong in no other respect than, possibly, a value outside its documented range -/
+structure WellFormed (r : Request) (m : Meth) : Prop where
+  nodup : (r.kws.map Param.kw).Nodup                      -- no keyword given twice
+  method : (⟨.method, .method m⟩ : Param) ∈ r.kws          -- `method = m` is given
+  typed : WellTyped r                                      -- every value has its keyword's type
+  nonempty : r.n ≠ 0                                       -- the range is not empty
+  noCancel : ∀ p ∈ r.kws, p.val ≠ .cancelFn (some true)    -- no cancel function that returns true
+  callbacks : DeclaredSupplied m r                         -- the callbacks `m` declares to need are supplied
+
+/-- is `spe_global_strategy` set to `false` in a parameter set? -/
+def speLocal (ps : PSet) : Bool := lookup .spe_global_strategy ps.pmap == some (.bool false)
+
+theorem typedOf_meth (r : Request) (m : Meth) (wf : WellFormed r m) :
+    (typedOf (merged r).pmap).meth .method = m := by
+  have h := explicit_values_kept r wf.nodup _ wf.method
+  simp only [PSet.get] at h
+  cases hl : lookup Kw.method (merged r).pmap with
+  | none => simp [hl] at h
+  | some v => simp [hl] at h; subst h; simp [typedOf, hl]
+
+theorem typedOf_cancel (r : Request) (m : Meth) (wf : WellFormed r m) :
+    (typedOf (merged r).pmap).cancel .cancel_function ≠ some true := by
+  intro hcontra
+  have hl := lookup_merged r .cancel_function
+  cases hv : lastVal .cancel_function r.kws with
+  | some v =>
+    obtain ⟨p, hp, _, hpv⟩ := lastVal_some _ _ _ hv
+    rw [hv] at hl
+    simp only [typedOf, hl] at hcontra
+    cases v <;> simp at hcontra
+    subst hcontra
+    exact wf.noCancel p hp hpv
+  | none =>
+    rw [hv] at hl
+    simp only [defaults_lookup .cancel_function (by decide)] at hl
+    simp [typedOf, hl, Kw.default] at hcontra
+
+theorem typedOf_speLocal (r : Request) (m : Meth) (wf : WellFormed r m) :
+    ((typedOf (merged r).pmap).bool .spe_global_strategy == false) = speLocal (merged r) := by
+  obtain ⟨v, hv, hty⟩ := merged_typed r wf.typed ⟨_, wf.method, rfl⟩ .spe_global_strategy
+  cases v <;> simp [Val.ty, Kw.ty] at hty
+  rename_i b
+  cases b <;> simp [typedOf, speLocal, hv]
+
+/-- **The bound table.**  For every method, every N ≥ 1 and all values: a request that is wrong in no other respect is
+    rejected with `tapkee::wrong_parameter_error` **iff** some documented range that applies to the method is violated
+    (so values on the valid side of every bound are accepted, values on the wrong side are rejected).  The left side is
+    computed from the regenerated `validate()` / constructor / `find_neighbors_with` tables, the right side is the
+    hand-written specification `SpecHolds`. -/
+theorem validate_matches_spec (r : Request) (m : Meth) (wf : WellFormed r m) :
+    (frontEnd r).outcome = .threw (errT .wrong_parameter_error) ↔
+      ¬ SpecHolds m r.n (numOf (merged r)) (speLocal (merged r)) := by
+  have htyped := merged_typed r wf.typed ⟨_, wf.method, rfl⟩
+  have hget := typedOf_get (merged r) htyped
+  have hv := verdict m r (typedOf (merged r).pmap) (merged r) hget (typedOf_meth r m wf)
+  obtain ⟨h1, -, -, h4⟩ := hv
+  have h1 := h1 wf.nonempty (typedOf_cancel r m wf) wf.callbacks
+  have hnum : (typedOf (merged r).pmap).num = numOf (merged r) := funext (typedOf_num (merged r) htyped)
+  rw [hnum, typedOf_speLocal r m wf] at h1
+  rw [← h1, frontEnd_eq r wf.nodup]
+  generalize afterMerge r (merged r) = x at h4 ⊢
+  obtain ⟨a, c⟩ := x
+  cases a with
+  | ok s => simp [finish, wpe]
+  | error s =>
+    cases s with
+    | reached cb => simp [finish, wpe]
+    | threw e =>
+      have := mapErr_wpe_iff e (h4 e rfl)
+      simp [finish, wpe, this]
+
+/-- … in particular, with every applicable range respected the request is *not* answered by `wrong_parameter_error` -/
+theorem valid_side_accepted (r : Request) (m : Meth) (wf : WellFormed r m)
+    (h : SpecHolds m r.n (numOf (merged r)) (speLocal (merged r))) :
+    (frontEnd r).outcome ≠ .threw (errT .wrong_parameter_error) :=
+  fun hc => ((validate_matches_spec r m wf).mp hc) h
+
+/-- non-vacuity: a concrete well-formed Isomap request (N = 10, k = 3) meets `WellFormed` and the specification -/
+example : WellFormed ⟨10, [⟨.method, .method .Isomap⟩, ⟨.num_neighbors, .int 3⟩], false, true, false, false⟩ .Isomap :=
+  ⟨by decide, by decide, by intro p hp; simp at hp; rcases hp with rfl | rfl <;> rfl, by decide,
+   by intro p hp; simp at hp; rcases hp with rfl | rfl <;> simp, by simp [DeclaredSupplied, Meth.traits]⟩
 
 /-- every exception class stichwort defines is caught by `tapkee::embed` and rethrown as its tapkee twin -/
 theorem rethrow_map_total :
